@@ -70,7 +70,7 @@ class C14(Plugin):
                 recs = gen_recs(rng, [c for c in UNI if c != "\x00"] + ["@"], k, nonempty_prefix=True, no_at=True)
             else:
                 recs = gen_recs(rng, PRINTABLE, k)
-            yield [recs, fmt, int(rng.random() < 0.5), int(rng.random() < 0.5), rng.choice([0, 0, 1, 2, 2])]
+            yield [recs, fmt, int(rng.random() < 0.5), int(rng.random() < 0.5), rng.choice([0, 0, 1, 2, 2, 3])]
 
     def observe(self, case):
         import curies
